@@ -333,7 +333,7 @@ func construct(dst reflect.Value, t *TD, v *VD) {
 		for i := range v.M {
 			e := reflect.New(dst.Type().Elem()).Elem()
 			construct(e, &t.E[0], &v.M[i].Val)
-			m.SetMapIndex(reflect.ValueOf(string(intsToBytes(v.M[i].Key))), e)
+			m.SetMapIndex(reflect.ValueOf(string(intsToBytes(v.M[i].Key))).Convert(dst.Type().Key()), e)
 		}
 		dst.Set(m)
 	case "ptr":
